@@ -204,7 +204,11 @@ TU_TYPES = {"int": ("int", "1"), "float": ("float", "1.5"), "str": ("str", '"s"'
 TU_USES = ["v = X[0]", "v = X[1.5]", 'v = X["k"]', "v = X[true]", "v = X[B1]", "v = X[0b1]", "v = X[ix]", "v = X[fx]", "v = X[sx]", "X[0] = 1", "X[1.5] = 1", 'X["k"] = 1', "X[0] += 1",
            "X[1.5] += 1", "v = X[0][0]", "v = X(1)", "v = X.v", "X.v = 1", "v = X + 1", "v = X + X", "v = -X", "v = !X", "v = (X) or 1", "v = get X", "v = X == nil",
            "from 0 to X {\n}", "from 0 to 2 step X {\n}", "if X {\n}", "v = [X, X]", "v = map[str, int] {\"k\": X}", "v = X.len()", "v = X is X", "v = typeof X", "print X",
-           "v = X[0 - 1]", "v = X[2147483648]", "v = X[1 + 0.5]", "X = X", "v: int = X", "assert X"]
+           "v = X[0 - 1]", "v = X[2147483648]", "v = X[1 + 0.5]", "X = X", "v: int = X", "assert X",
+           # the value (plain, negated, not-ed, indexed, unwrapped) as a LATER argument of a call, as a later element of a list / map literal: an error found
+           # while the code of a later operand is emitted meets the temporaries of the earlier ones
+           "v = two(1, X)", "v = two(1, -X)", "v = two(1, !X)", "v = two(1, X[0])", "v = two(1, get X)", "v = two(1, X + 1)", "v = [1, -X]", "v = [1, 2, !X]",
+           "v = map[str, int] {\"a\": 1, \"b\": -X}", "v = two(two(1, 2), -X)", "v = 1 + two(1, -X)", "print two(1, -X)"]
 TU_HOSTS = {"module": "{S}", "fn": "hf = fn() {{\n\t{S}\n}}"}
 
 
@@ -220,7 +224,7 @@ def tu_source(case):
     _, t, alias, u, h = case
     ty, init = TU_TYPES[t]
     pre = "class Tq {\n\tv: int\n\tconstructor(self) {\n\t\tself.v = 1\n\t}\n}\n" if t == "obj" else ""
-    pre += "ix = 0\nfx = 1.5\nsx = \"k\"\n"
+    pre += "ix = 0\nfx = 1.5\nsx = \"k\"\ntwo = fn(p: int, q: int) -> int {\n\treturn p + q\n}\n"
     if alias:
         pre += f"type Aq {ty}\nxq: Aq = {init}\n"
     else:
@@ -305,7 +309,7 @@ class C16(Check):
         imps = [("i", pi, fi, h) for pi in range(len(self.IMPORT_PATHS)) for fi in range(len(self.IMPORT_FORMS)) for h in self.IMPORT_HOSTS]
         tul = list(tu_cases())
         afl = list(af_cases())
-        ls = [("Lu-type-x-use:-16-types-direct-and-through-an-alias-x-40-uses", tul if tier == "thorough" else [c for c in tul if c[4] == "module" or c[2]]),
+        ls = [("Lu-type-x-use:-16-types-direct-and-through-an-alias-x-52-uses", tul if tier == "thorough" else [c for c in tul if c[4] == "module" or c[2]]),
               ("Lf-assignment-flags-x-forms-x-hosts-x-declared-where", afl if tier == "thorough" else [c for c in afl if c[4] in ("none", "int", "opt")]), ("L0-nesting-towers+lexical-boundaries", [[c] for c in towers()] + [("x", c, i) for i in range(len(lits)) for c in range(len(LEX_CTX))]),
               ("Li-import-paths-x-forms-x-hosts", imps),
               ("L1-grammar-k<=2-all-hosts", gram(2, HOSTS, pre, list(ROOTS))),
